@@ -15,7 +15,7 @@ pub fn plan() -> Plan {
         meta: Meta {
             property: "C13",
             level: "exploration",
-            rule: "bounded-liveness probe after random call sequences: a history over the whole public API (data operations, try_* lifecycle calls, create/close/restore_active_blob_in_background in states where they do and do not apply, force_update_active_blob with predicates true / false / records>2, free_excess_resources, offload, fsync, restarts) runs on a storage with a record limit of 5 per blob; then the probe: (i) Storage::verif_worker_alive() - the worker task has not finished (timing-free); (ii) the active blob is filled beyond its record limit, the 200 ms rotation debounce is waited out once, at most 3 more records are written, each followed by a worker barrier: next_blob_id must have advanced and the previous blob must be closed; (iii) after barriers every non-empty closed blob has a current index file (written bit set, recorded blob size == size of the blob file): first without flushing deferred dumps (the worker's own timers must fire, bounded by 3 s of polling = 1000x the configured deferred maximum), plus a dedicated scenario in which try_close_active_blob requests a dump while the previous dump task is still running (its index write delayed 20-60 ms through an H1 failpoint): the request must still be served, and a variant in which one delete appends a marker to 3-5 dumped closed blobs while every index write takes 110-260 ms, so that the dump pass outlasts pearl's 200 ms time slice and must be continued without skipping a blob; the overflow probe exceeds a 5-record limit or a 500-byte size limit; a scenario keeps the worker busy inside a predicate while more than a channel's worth (1100) of other requests is queued and the limit-reaching write is issued, then lets go: the blob must still be replaced without a further write; a scenario steps the wall clock back (5 s, 1 h, 400 days; injected process-locally into CLOCK_REALTIME) after the active blob was created and requires rotation to go on; a third of the histories run with a dirty-byte limit of 0..1000 and blob syncs slowed by 2-9 ms, and every history runs under a timing-free hang monitor (pending + no file operation started, finished or in flight during >=100 consecutive samples over 15 s = deadlock); (iv) close() returns: while it is pending the I/O tap's in-flight counter and event count are sampled every 50 ms; 'pending, nothing in flight and no file operation during >=100 samples over 8 s' is reported as a hang, a watchdog firing while I/O still happens is inconclusive. Non-trivial = history containing a background request that did not apply in its state, or a deferred dump; distinct = hash(history).",
+            rule: "bounded-liveness probe after random call sequences: a history over the whole public API (data operations, try_* lifecycle calls, create/close/restore_active_blob_in_background in states where they do and do not apply, force_update_active_blob with predicates true / false / records>2, free_excess_resources, offload, fsync, restarts) runs on a storage with a record limit of 5 per blob; then the probe: (i) Storage::verif_worker_alive() - the worker task has not finished (timing-free); (ii) the active blob is filled beyond its record limit, the 200 ms rotation debounce is waited out once, at most 3 more records are written, each followed by a worker barrier: next_blob_id must have advanced and the previous blob must be closed; (iii) after barriers every non-empty closed blob has a current index file (written bit set, recorded blob size == size of the blob file): first without flushing deferred dumps (the worker's own timers must fire, bounded by 3 s of polling = 1000x the configured deferred maximum), plus a dedicated scenario in which try_close_active_blob requests a dump while the previous dump task is still running (its index write delayed 20-60 ms through an H1 failpoint): the request must still be served, and a variant in which one delete appends a marker to 3-5 dumped closed blobs while every index write takes 110-260 ms, so that the dump pass outlasts pearl's 200 ms time slice and must be continued without skipping a blob; the overflow probe exceeds a 5-record limit or a 500-byte size limit; a scenario issues two deletes into a closed, dumped blob 2-60 ms apart under 30/90 ms deferred-dump times (optionally followed by an unrelated background request) and then only waits: the index file must become current through the worker's own timers; a scenario keeps the worker busy inside a predicate while more than a channel's worth (1100) of other requests is queued and the limit-reaching write is issued, then lets go: the blob must still be replaced without a further write; a scenario steps the wall clock back (5 s, 1 h, 400 days; injected process-locally into CLOCK_REALTIME) after the active blob was created and requires rotation to go on; a third of the histories run with a dirty-byte limit of 0..1000 and blob syncs slowed by 2-9 ms, and every history runs under a timing-free hang monitor (pending + no file operation started, finished or in flight during >=100 consecutive samples over 15 s = deadlock); (iv) close() returns: while it is pending the I/O tap's in-flight counter and event count are sampled every 50 ms; 'pending, nothing in flight and no file operation during >=100 samples over 8 s' is reported as a hang, a watchdog firing while I/O still happens is inconclusive. Non-trivial = history containing a background request that did not apply in its state, or a deferred dump; distinct = hash(history).",
             assumptions: vec!["liveness is restated as bounded progress: N further operations + worker barriers; the only real-time waits are pearl's own 200 ms debounce and the deferred-dump timers", "verdict holds for the histories generated for this seed"],
         },
         shards: 16,
@@ -303,6 +303,56 @@ async fn run(l: &mut Loose<8>, ops: &[Op], pred_gt: &[bool]) -> Out {
     out
 }
 
+/// Two deferred dump requests in a row: a closed, dumped blob holds two keys; with deferred-dump times of 30 / 90 ms
+/// the first key is deleted (marker into the closed blob: its index returns to memory, a deferred dump is armed), and
+/// `gap_ms` later the second one (a second request while the first deadline is pending, or just after it fired). Then
+/// nothing else is asked of the storage: the worker's own timers must bring the index file up to date.
+async fn two_deferred_requests(l: &mut Loose<8>, gap_ms: u64, poke: bool) -> Out {
+    let mut out = Out { violation: None, inconclusive: None, bg_inapplicable: 0, rotations: 0, index_files_checked: 0, polls: 0 };
+    if let Err(e) = l.open(false).await {
+        out.violation = Some(("init-failed-on-empty-dir".into(), e));
+        return out;
+    }
+    for k in 0..3u16 {
+        let _ = l.exec(&Op::Put { k, ts: 1, meta: None, size: 20 }).await;
+    }
+    let _ = l.exec(&Op::Close).await;
+    let _ = l.exec(&Op::Create).await;
+    l.barrier().await;
+    let _ = l.exec(&Op::Del { k: 0, ts: 5, meta: None, only_if: true }).await;
+    tokio::time::sleep(Duration::from_millis(gap_ms)).await;
+    let _ = l.exec(&Op::Del { k: 1, ts: 5, meta: None, only_if: true }).await;
+    if poke {
+        // an unrelated request to the worker while the deadline is pending
+        let _ = l.exec(&Op::CreateBg).await;
+    }
+    let s = l.storage.as_ref().unwrap();
+    let dir = l.dir.clone();
+    let t0 = Instant::now();
+    loop {
+        out.polls += 1;
+        let active_id = active_id_of(s, &dir).await;
+        let (missing, checked) = closed_blobs_without_index(&dir, active_id);
+        if missing.is_empty() {
+            out.index_files_checked += checked;
+            break;
+        }
+        if t0.elapsed() > Duration::from_secs(4) {
+            if !s.verif_worker_alive() {
+                out.violation = Some(("worker-dead".into(), "worker died".into()));
+            } else {
+                out.violation = Some(("deferred-dump-never-happens/two-requests".into(), format!("two deletes into a closed, dumped blob {} ms apart (deferred dump times 30 / 90 ms){}: {:?} after the second one the index file of blob {:?} is still not current; nothing else was asked of the storage (no barrier, no write)", gap_ms, if poke { ", followed by a background create request" } else { "" }, t0.elapsed(), missing)));
+            }
+            break;
+        }
+        // plain waiting: no message is sent to the worker
+        tokio::time::sleep(Duration::from_millis(10)).await;
+    }
+    let st = l.storage.take().unwrap();
+    let _ = tokio::time::timeout(Duration::from_secs(20), st.close()).await;
+    out
+}
+
 static GATE: std::sync::atomic::AtomicU8 = std::sync::atomic::AtomicU8::new(0);
 
 /// Worker busy and its channel full: a predicate passed to force_update_active_blob keeps the worker inside one
@@ -433,6 +483,31 @@ pub fn shard(ctx: &Ctx) -> Shard {
         let mut pred_gt: Vec<bool> = ops.iter().map(|_| rng.chance(1, 3)).collect();
         let dir = new_dir("c13-");
         let mut l: Loose<8> = Loose::new(dir.clone(), cfg.clone());
+        if n % 16 == 9 {
+            cfg.max_records = None;
+            cfg.max_blob_size = None;
+            cfg.deferred_ms = Some((30, 90));
+            l.cfg = cfg.clone();
+            let gap = *rng.pick(&[2u64, 10, 20, 28, 35, 60]);
+            let poke = rng.chance(1, 3);
+            let r = block_on_catch(cfg.mt, two_deferred_requests(&mut l, gap, poke));
+            rm_dir(&dir);
+            n += 1;
+            sh.evaluations += 1;
+            sh.add("two_deferred_requests_scenarios", 1);
+            sh.nontrivial.insert(fnv(format!("tdr-{}-{}-{}", gap, poke, n).as_bytes()));
+            let replay = json!({"check": "c13-two-deferred-requests", "cfg": cfg.to_json(), "gap_ms": gap, "poke": poke});
+            match r {
+                Ok(out) => {
+                    sh.add("closed_blob_index_files_checked", out.index_files_checked);
+                    if let Some((sig, detail)) = out.violation {
+                        sh.violation(&ctx.known, "C13", ctx.seed, &format!("C13/{}", sig), &detail, replay);
+                    }
+                }
+                Err(p) => sh.violation(&ctx.known, "C13", ctx.seed, "C13/panic", &p, replay),
+            }
+            continue;
+        }
         if n % 16 == 13 {
             cfg.max_records = Some(5);
             cfg.max_blob_size = None;
